@@ -455,6 +455,13 @@ def canonical_order(ctx, pt, site):
                 for ev2 in sort_events(ctx, pt, f2):
                     if not ev2.inplace and not pt.pts(ev2.src, ev2.src_fn or ev2.fn):
                         blind.append(ev2)
+            # the dump sits in a helper: a caller may re-key before it calls the helper (two functions, not followed here)
+            up = [c_ for c_ in ctx.prog.functions.values() if c_ is not fn and any(any(t_[0] == "pkg" and t_[1] is fn for t_ in s_.targets) for s_ in ctx.cg.sites.get(c_, []))
+                  and sort_events(ctx, pt, c_)]
+            if up and not blind:
+                ctx.undecided("C06.1", fn, "dump via %s: dictionary '%s' is filled in insertion order and not re-keyed in %s itself; its caller %s re-keys a dictionary before the call - whether that is this one was not followed" % (
+                    how, label, fn.qualname, up[0].qualname), norm(call) + " :: " + label)
+                continue
             if blind:
                 ctx.undecided("C06.1", fn, "dump via %s: dictionary '%s' is filled in insertion order; a re-keying exists (`%s` in %s) but which dictionary it copies could not be identified" % (
                     how, label, norm(blind[0].stmt)[:70], (blind[0].src_fn or blind[0].fn).qualname), norm(call) + " :: " + label)
